@@ -278,3 +278,91 @@ Proof.
   - symmetry. apply frag_predict_values.
   - reflexivity.
 Qed.
+
+(* ------------------------------------------------------------------ create_mlp: layer structure *)
+
+Lemma frag_mlp_guards arch input_dim output_dim sq :
+  mlp_first_guard arch = (0 <? Z.of_nat (length arch)) /\
+  mlp_loop_count arch = Z.of_nat (length arch) - 1 /\
+  mlp_output_guard output_dim = (0 <? output_dim) /\
+  mlp_last_dim arch input_dim = (if 0 <? Z.of_nat (length arch) then last arch 0 else input_dim) /\
+  mlp_squash_guard sq = sq.
+Proof. repeat split. Qed.
+
+Definition not_tanh (l : layer) : Prop := l <> LTanh.
+
+Lemma repeat_not_tanh x n : not_tanh x -> Forall not_tanh (repeat x n).
+Proof. intros H. induction n; cbn; constructor; auto. Qed.
+
+Lemma block_not_tanh npre npost i o b : Forall not_tanh (block npre npost i o b).
+Proof.
+  unfold block. repeat (apply Forall_app; split); try (apply repeat_not_tanh); try (repeat constructor); unfold not_tanh; discriminate.
+Qed.
+
+Lemma hidden_not_tanh npre npost b : forall arch, Forall not_tanh (hidden_blocks npre npost b arch).
+Proof.
+  induction arch as [|a rest IH]; [constructor|]. destruct rest as [|c rest]; [constructor|].
+  cbn [hidden_blocks]. apply Forall_app. split; [apply block_not_tanh | exact IH].
+Qed.
+
+Lemma body_not_tanh i o arch b npre npost : Forall not_tanh (mlp_body i o arch b npre npost).
+Proof.
+  unfold mlp_body. repeat (apply Forall_app; split).
+  - destruct arch; [constructor | apply block_not_tanh].
+  - apply hidden_not_tanh.
+  - destruct (0 <? o); [|constructor]. apply Forall_app. split; [apply repeat_not_tanh; unfold not_tanh; discriminate|].
+    repeat constructor. unfold not_tanh. discriminate.
+Qed.
+
+Lemma last_Forall {A} (P : A -> Prop) (l : list A) d : Forall P l -> P d -> P (last l d).
+Proof. induction 1 as [|x l Hx Hl IH]; intros Hd; [exact Hd|]. destruct l; [exact Hx|]. cbn [last]. apply IH. exact Hd. Qed.
+
+(* the network ends with Tanh exactly when squash_output is set - for EVERY net_arch (the empty one included), output size,
+   bias flag and pre / post module lists *)
+Theorem mlp_last_is_tanh_iff i o arch sq b npre npost :
+  last (mlp_layers i o arch sq b npre npost) LAct = LTanh <-> sq = true.
+Proof.
+  unfold mlp_layers. destruct sq.
+  - rewrite last_last. tauto.
+  - rewrite app_nil_r. split; [|discriminate]. intros H. exfalso.
+    assert (N : not_tanh (last (mlp_body i o arch b npre npost) LAct)).
+    { apply last_Forall; [apply body_not_tanh | unfold not_tanh; discriminate]. }
+    exact (N H).
+Qed.
+
+(* and Tanh never occurs anywhere else *)
+Theorem mlp_tanh_only_last i o arch sq b npre npost :
+  mlp_layers i o arch sq b npre npost = mlp_body i o arch b npre npost ++ (if sq then [LTanh] else []) /\
+  Forall not_tanh (mlp_body i o arch b npre npost).
+Proof. split; [reflexivity | apply body_not_tanh]. Qed.
+
+(* one Linear layer per hidden size, plus the output layer iff output_dim > 0 *)
+Definition is_linear (l : layer) : bool := match l with LLinear _ _ _ => true | _ => false end.
+
+Lemma filter_repeat_nonlinear x n : is_linear x = false -> filter is_linear (repeat x n) = [].
+Proof. intros H. induction n; cbn; [reflexivity|]. rewrite H. exact IHn. Qed.
+
+Lemma block_linear npre npost i o b : length (filter is_linear (block npre npost i o b)) = 1%nat.
+Proof.
+  unfold block. rewrite !filter_app, !filter_repeat_nonlinear by reflexivity. reflexivity.
+Qed.
+
+Lemma hidden_linear npre npost b : forall arch,
+  length (filter is_linear (hidden_blocks npre npost b arch)) = pred (length arch).
+Proof.
+  induction arch as [|a rest IH]; [reflexivity|]. destruct rest as [|c rest]; [reflexivity|].
+  change (hidden_blocks npre npost b (a :: c :: rest)) with (block npre npost a c b ++ hidden_blocks npre npost b (c :: rest)).
+  rewrite filter_app, app_length, block_linear, IH. reflexivity.
+Qed.
+
+Theorem mlp_linear_count i o arch sq b npre npost :
+  length (filter is_linear (mlp_layers i o arch sq b npre npost)) =
+  (length arch + (if (0 <? o)%Z then 1 else 0))%nat.
+Proof.
+  unfold mlp_layers, mlp_body. rewrite !filter_app, !app_length, hidden_linear.
+  assert (T : length (filter is_linear (if sq then [LTanh] else [])) = 0%nat) by (destruct sq; reflexivity).
+  rewrite T. destruct (0 <? o).
+  - rewrite filter_app, filter_repeat_nonlinear by reflexivity. cbn [app filter is_linear length].
+    destruct arch as [|a rest]; [reflexivity|]. rewrite block_linear. cbn [length pred]. lia.
+  - cbn [filter length]. destruct arch as [|a rest]; [reflexivity|]. rewrite block_linear. cbn [length pred]. lia.
+Qed.
